@@ -31,3 +31,31 @@ Theorem C02_gen_wrap_refuted :
   snd (pool_get (pool_recycle p (mkE 1 gen_max))) = stale.
 Proof. exact gen_wrap_refuted. Qed.
 Print Assumptions C02_gen_wrap_refuted.
+
+(** The world only ever talks to the pool through [pool_get] (creation) and
+    [pool_recycle] of an alive handle (removal), keeping the pool invariant: *)
+From Arche Require Import Model.World Model.Ops Proofs.Store.
+Theorem C02_world_create : forall w live issued frees tid t nd,
+  store_ok w live -> pool_inv (w_pool w) live issued frees ->
+  length (w_index w) = length (p_ents (w_pool w)) ->
+  w_tables w !! tid = Some t -> w_nodes w !! t_node t = Some nd -> 0 < node_capinc w nd ->
+  let '(w', e) := create_entity w tid in
+  e ∉ live /\ e ∉ issued /\ store_ok w' (e :: live) /\
+  (exists frees', pool_inv (w_pool w') (e :: live) (e :: issued) frees') /\
+  length (w_index w') = length (p_ents (w_pool w')) /\
+  w_nodes w' = w_nodes w /\ w_reg w' = w_reg w /\ w_tb w' = w_tb w /\ w_capinc w' = w_capinc w /\
+  (forall e', e' ∈ live -> ent_cells w' e' = ent_cells w e') /\
+  ent_cells w' e = Some (t_node t, t_target t, zero_row nd) /\
+  (forall tid' t', w_tables w !! tid' = Some t' -> exists t'', w_tables w' !! tid' = Some t'' /\ t_node t'' = t_node t').
+Proof. exact create_entity_ok. Qed.
+Theorem C02_world_remove : forall w live issued frees e,
+  store_ok w live -> pool_inv (w_pool w) live issued frees -> e ∈ live -> (egen e < gen_max)%N ->
+  is_locked w = false ->
+  let r := op_remove_entity w e in
+  snd (fst r) = Ok VUnit /\
+  store_ok (fst (fst r)) (filter (fun x => x <> e) live) /\
+  pool_inv (w_pool (fst (fst r))) (filter (fun x => x <> e) live) issued (eid e :: frees) /\
+  (forall e', e' ∈ live -> e' <> e -> ent_cells (fst (fst r)) e' = ent_cells w e') /\
+  pool_alive (w_pool (fst (fst r))) e = false.
+Proof. exact remove_entity_ok. Qed.
+Print Assumptions C02_world_remove.
